@@ -388,7 +388,7 @@ def run(chk):
         chk.add(f'load_upb({kind!r}, {args}): orthonormal product vectors; complementary projector Hermitian, trace one, PSD, PPT, rank D-|UPB| (ground, binary64 tol 1e-9)', [], ir.bconst(not ok),
                 key=f'load_upb({kind}) invalid', replay=('c18', pay))
     # ---- isotropic EOF on the entangled range: the published piecewise formula (curved up to F_c = 4(d-1)/d^2, straight line beyond), exact reals
-    for d in (2, 3) if quick else (2, 3, 4, 5):
+    for d in (2, 3, 4) if quick else (2, 3, 4, 5, 6):
         chk.configurations += 1
         lo = Fraction(1, d + 1) + Fraction(1, 2 ** 20)      # the sliver within 2^-20 of the boundary (where the code clamps 1-gamma at the smallest normal) is covered by the binary64 slice below
         pre = [(x >= S.as_sc(lo)).n, (x <= 1).n]
